@@ -259,12 +259,26 @@ class Client:
             d.addCallbacks(lambda v, k=kind: self.ev(k, v), lambda f, k=kind: self.ev(k + "!", f.value))
 
     def _next_message(self):
-        d = self.w.get_message()
+        # (the eager application's outstanding get_message() is a get_*() call like any other: it is on record - `late` - with
+        # its outcome, so that one that is never answered, not even at close, shows)
+        entry = ["message", getattr(self.world, "stepno", 0), None]
+        self.late.append(entry)
+        try:
+            d = self.w.get_message()
+        except Exception as e:
+            entry[2] = ("err", e)
+            self.ev("message!", e)
+            return
 
         def ok(v):
+            entry[2] = ("ok", v)
             self.ev("message", v)
             self._next_message()
-        d.addCallbacks(ok, lambda f: self.ev("message!", f.value))
+
+        def err(f):
+            entry[2] = ("err", f.value)
+            self.ev("message!", f.value)
+        d.addCallbacks(ok, err)
 
     def _install_tracers(self):
         b = self.boss
